@@ -326,6 +326,10 @@ const char* pv_status_name(int st);
 /* arms the allocator for the next library call: usually the next request is refused, sometimes only the second or third one (a call
  * that makes several requests must cope with any of them failing).  For calls whose expected result does not depend on the refusal. */
 void pv_arm_some_request(void);
+#define PV_NPATHS 5
+extern unsigned pv_path_mask;
+extern const char* const pv_path_name[PV_NPATHS];      /* created, loaded, decoded, crypt-twice, decrypted-copy */
+polyseed_data* pv_seed_by_path(pv_rng* rng, const pv_mseed* m, int how, unsigned coin);      /* how 0 needs (m->features & 16) == 0 */
 
 /* the same clause under contention: `nthreads` threads, each with its own thread-local world (yields inside the dependency
  * callbacks widen the windows), run `iters` iterations of `fn` on private seeds at the same time.  fn returns false and
